@@ -920,18 +920,49 @@ func c16R7(c *Ctx) {
 	if len(um) != 1 {
 		c.lost("json.Unmarshal in the relay's recvConfig")
 	}
-	isWinStore := func(in ssa.Instruction) bool {
-		st, ok := in.(*ssa.Store)
-		if !ok {
-			return false
+	// a store of the config's Newline whose value, on the phi edges that can be taken under the assumptions, is
+	// always (every=true) / possibly (every=false) '!\n'. A default picked into a local first arrives as a phi.
+	newlineStore := func(as []assumption, every bool) func(in ssa.Instruction) bool {
+		reach := blocksUnder(rc, as)
+		no := contradicts(as)
+		return func(in ssa.Instruction) bool {
+			st, ok := in.(*ssa.Store)
+			if !ok {
+				return false
+			}
+			n, _ := fieldAddrName(st.Addr)
+			if !strings.HasSuffix(n, ".Newline") {
+				return false
+			}
+			var leaves func(v ssa.Value, depth int) (all, some, any bool)
+			leaves = func(v ssa.Value, depth int) (bool, bool, bool) {
+				if ph, isPhi := v.(*ssa.Phi); isPhi && depth < 4 {
+					all, some, any := true, false, false
+					for i, e := range ph.Edges {
+						pred := ph.Block().Preds[i]
+						if !reach[pred] || no(pred, ph.Block()) {
+							continue
+						}
+						a, sm, an := leaves(e, depth+1)
+						all, some, any = all && a, some || sm, any || an
+					}
+					return all, some, any
+				}
+				w := isConstStrV("!\n")(v)
+				return w, w, true
+			}
+			all, some, any := leaves(st.Val, 0)
+			if every {
+				return all && any
+			}
+			return some
 		}
-		n, _ := fieldAddrName(st.Addr)
-		return strings.HasSuffix(n, ".Newline") && isConstStrV("!\n")(st.Val)
 	}
+	isWinStore := newlineStore([]assumption{A(win, true), A(tun, false)}, true)
 	hit, path := reachFromE(rc.Blocks[0], 0, func(in ssa.Instruction) bool { return in == um[0].(ssa.Instruction) }, isWinStore, contradicts([]assumption{A(win, true), A(tun, false)}))
 	c.check(hit == nil, "recvConfig/windows-default-newline", c.pos(rc.Pos()), "towards a Windows server without tunnel the config's default newline is '!\\n'", "the relay can decode the config of a Windows server with the plain default newline", c.pathStr(path)...)
-	hit, _ = reachFromE(rc.Blocks[0], 0, isWinStore, nil, contradicts([]assumption{A(win, false)}))
-	hit2, _ := reachFromE(rc.Blocks[0], 0, isWinStore, nil, contradicts([]assumption{A(tun, true)}))
+	hit, _ = reachFromE(rc.Blocks[0], 0, newlineStore([]assumption{A(win, false)}, false), nil, contradicts([]assumption{A(win, false)}))
+	hit2, _ := reachFromE(rc.Blocks[0], 0, newlineStore([]assumption{A(tun, true)}, false), nil, contradicts([]assumption{A(tun, true)}))
 	c.check(hit == nil && hit2 == nil, "recvConfig/plain-default-newline", c.pos(rc.Pos()), "the Windows default newline is not used for a non-Windows server or through the tunnel", "the Windows default newline can be used for a non-Windows server / through the tunnel")
 }
 
